@@ -114,6 +114,7 @@ def mine_with_real_miner(sn, world, rng, max_tries=20000):
     from skepticoin.datatypes import Block, BlockHeader
     from skv import gen, bridge
     mining.time = sn.net.clock
+    mining.sleep = lambda seconds, _c=sn.net.clock: setattr(_c, "t", _c.t + 1)     # waiting lets the virtual clock move on
     mk = gen.make_keys(3, tag=b"nodekit-miner")
     wallet = wm.Wallet({pk: sk for sk, pk in mk}, [pk for _s, pk in mk], {})
 
